@@ -617,10 +617,12 @@ def check_main(pid, tier, seed, nworkers=None):
 
 def determinism_selftest(pid, seed, runs=200):
     """Each of the first `runs` run indices is executed twice, in different interpreters with
-    different PYTHONHASHSEED and different worker counts; digests must match pairwise."""
+    different PYTHONHASHSEED and different worker counts; digests must match pairwise.  Both worker counts are multiples
+    of four, so that a run index meets the same interpreter configuration in both passes (run i is executed under
+    python -O iff i % 4 == 3): the line-level scheduler pre-empts at source lines, and -O removes the assert lines."""
     tier = os.environ.get("VERIF_TIER") or "quick"
     a, ea = spawn_workers(pid, seed, tier, runs, 600, 16, digests=True, hashseed_base=1)
-    b, eb = spawn_workers(pid, seed, tier, runs, 600, 3, digests=True, hashseed_base=2)
+    b, eb = spawn_workers(pid, seed, tier, runs, 600, 4, digests=True, hashseed_base=2)
     ma, mb = merge(a), merge(b)
     bad = [k for k in ma["digests"] if ma["digests"][k] != mb["digests"].get(k)]
     print("determinism property=%s runs=%d mismatches=%d errors=%d" % (pid, len(ma["digests"]), len(bad),
